@@ -29,6 +29,7 @@ type CaseOpts struct {
 	Coll       string
 	NoNsStages bool
 	Cmd        *Node // if set, used as the command document instead of a generated one
+	Msg        string // if set, the line's msg (an OTHER-component line with another msg is outside the line gate)
 }
 
 func (g *Gen) lsid() *Node {
@@ -179,9 +180,27 @@ func (g *Gen) metrics(attr *Node) {
 		attr.Set("storage", keep(ObjN()))
 	}
 	attr.Set("cpuNanos", KeepN("24778600"))
-	attr.Set("remote", StrN(fmt.Sprintf("%d.%d.%d.%d:%d", g.rng(1, 254), g.rng(0, 255), g.rng(0, 255), g.rng(1, 254), g.rng(1024, 65000))).With(&Tag{Role: Remote}))
+	attr.Set("remote", StrN(g.RemoteAddr()).With(&Tag{Role: Remote}))
 	attr.Set("protocol", KeepS("op_msg"))
 	attr.Set("durationMillis", KeepI(g.rng(100, 9999)))
+}
+
+// RemoteAddr returns a client address as the server logs it in attr.remote:
+// mostly IPv4, but also bracketed IPv6 (plain, link-local with zone,
+// IPv4-mapped) and host names.
+func (g *Gen) RemoteAddr() string {
+	port := g.rng(1024, 65000)
+	switch g.R.Intn(10) {
+	case 0:
+		return fmt.Sprintf("[2001:db8:%x:%x::%x]:%d", g.rng(1, 65535), g.rng(1, 65535), g.rng(1, 65535), port)
+	case 1:
+		return fmt.Sprintf("[fe80::%x:%x%%eth0]:%d", g.rng(1, 65535), g.rng(1, 65535), port)
+	case 2:
+		return fmt.Sprintf("[::ffff:198.51.%d.%d]:%d", g.rng(0, 255), g.rng(1, 254), port)
+	case 3:
+		return fmt.Sprintf("client-%s.corp.example.net:%d", g.letters(6), port)
+	}
+	return fmt.Sprintf("%d.%d.%d.%d:%d", g.rng(1, 254), g.rng(0, 255), g.rng(0, 255), g.rng(1, 254), port)
 }
 
 // Case builds one complete log line.
@@ -225,6 +244,9 @@ func (g *Gen) Case(o CaseOpts) *Case {
 	} else if g.chance(0.2) && cs.Carrier != "cmd" {
 		msg = g.pick("command", "Slow query", "Plan executor error during find command")
 	}
+	if o.Msg != "" {
+		msg = o.Msg
+	}
 	line := ObjN("t", keep(ObjN("$date", StrN(g.ISODate()))), "s", KeepS("I"), "c", KeepS(comp), "id", KeepI(51803), "ctx", KeepS(fmt.Sprintf("conn%d", g.rng(1, 99999))), "msg", KeepS(msg))
 	attr := ObjN()
 	nsFull := StrN(cs.DB + "." + cs.Coll).With(&Tag{Role: NsFull})
@@ -250,7 +272,9 @@ func (g *Gen) Case(o CaseOpts) *Case {
 		g.metrics(attr)
 	case "cmd":
 		line.Set("s", KeepS("W"))
-		line.Set("msg", KeepS(g.pick("Aggregate command executor error", "Plan executor error during find command", "Slow query")))
+		if o.Msg == "" {
+			line.Set("msg", KeepS(g.pick("Aggregate command executor error", "Plan executor error during find command", "Slow query")))
+		}
 		attr.Set("error", keep(ObjN("code", IntN(50), "codeName", StrN("MaxTimeMSExpired"), "errmsg", StrN("operation exceeded time limit"))))
 		attr.Set("stats", keep(ObjN()))
 		if g.chance(0.5) {
